@@ -381,6 +381,48 @@ func (g *gen) bigFloatTok() string {
 	return fmt.Sprintf("b:%d:%s", prec, y.Text('p', 0))
 }
 
+// bfFamily (second generation of the implementation-only stream; draws from its OWN generator so
+// that the first generation's cases stay what they were for every seed): a finite BigFloat b and two
+// values of arbitrary numeric kinds projected from b's VALUE (so that they are equal to it wherever
+// the kind can hold it; inKind perturbs some by one unit / one ulp).  The caller runs the pairs in
+// BOTH orders: =~ between BigFloat and every other kind is implemented twice (BigFloat.LaxEqual
+// and the other kind's own dispatch), and only the two orders side by side show a missing case.
+var famKinds = []string{"I", "F", "D", "S", "i8", "i16", "i32", "i64", "u8", "u16", "u32", "u64", "u", "b"}
+
+func (g *gen) bfFamily() (string, string, string) {
+	r := g.r
+	prec := hx.Pick(r, []int{24, 53, 64, 100, 200})
+	var x *big.Float
+	switch r.Below(4) {
+	case 0:
+		// small integers: every kind can hold them
+		x = new(big.Float).SetPrec(2200).SetInt64(int64(r.Range(-4, 300)))
+	case 1:
+		// just below / at / above the top of a sized integer kind
+		e := hx.Pick(r, []uint{7, 8, 15, 16, 31, 32, 63, 64})
+		z := new(big.Int).Lsh(big.NewInt(1), e)
+		z.Add(z, big.NewInt(int64(r.Range(-2, 1))))
+		x = new(big.Float).SetPrec(2200).SetInt(z)
+	default:
+		x = g.base()
+	}
+	y := new(big.Float).SetPrec(uint(prec)).Set(x)
+	if y.IsInf() {
+		y.SetInt64(1)
+	}
+	bt := fmt.Sprintf("b:%d:%s", prec, y.Text('p', 0))
+	val := new(big.Float).SetPrec(2200).Set(y)
+	mk1 := func() string {
+		k := hx.Pick(r, famKinds)
+		if k == "b" {
+			p2 := hx.Pick(r, []int{24, 53, 64, 100, 200})
+			return fmt.Sprintf("b:%d:%s", p2, new(big.Float).SetPrec(uint(p2)).Set(val).Text('p', 0))
+		}
+		return g.inKind(k, val)
+	}
+	return bt, mk1(), mk1()
+}
+
 func main() {
 	o := hx.ParseFlags()
 	defer hx.Flush()
@@ -403,6 +445,7 @@ func main() {
 		hx.Emit(fmt.Sprintf("c%d", i), c, ob)
 	}
 	g := &gen{r: hx.NewRng(o.Seed)}
+	g2 := &gen{r: hx.NewRng(o.Seed ^ 0x5bd1e995c18f)}
 	for i := 0; i < o.N; i++ {
 		var in string
 		switch o.Extra {
@@ -441,6 +484,12 @@ func main() {
 				}
 			}
 			in = "T " + v[0] + " " + v[1] + " " + v[2]
+			// second generation: BigFloat against a value of every kind, both orders, and a triple
+			bt, k1, k2 := g2.bfFamily()
+			for j, in2 := range []string{"P " + bt + " " + k1, "P " + k1 + " " + bt, "T " + bt + " " + k1 + " " + k2, "T " + k1 + " " + bt + " " + k2} {
+				c, ob := run(in2)
+				hx.Emit(fmt.Sprintf("f%d.%d", i, j), c, ob)
+			}
 		default:
 			v := g.values(2)
 			in = "P " + v[0] + " " + v[1]
